@@ -19,7 +19,7 @@ type XMLOpts struct {
 	Wide bool
 }
 
-var xmlNames = []string{"a", "b", "c", "d", "item", "e-f", "Name", "ns:g", "x1", "list", "ab", "items", "a1", "B"}
+var xmlNames = []string{"a", "b", "c", "d", "item", "e-f", "Name", "ns:g", "x1", "list", "ab", "items", "a1", "B", "n-s:h"}
 var xmlAttrNames = []string{"id", "k", "x", "y-z", "Ref", "n", "idx", "key", "xa"}
 var xmlTexts = []string{"v", "1", "true", "hello world", "3.14", " padded ", "x&amp;y", "&lt;tag&gt;", "q&quot;&apos;", "é☃", "<![CDATA[<c>&d]]>", "a>b", "0", "-7", "line1\nline2", "]", "}{", "100%", "a%20b %s %d", "50%% off", "$1 #2 @3", "tab\there", "18446744073709551615", "9223372036854775808", "1e999", "+Inf", "0x1F", "T", "false"}
 
